@@ -19,11 +19,14 @@ LFOps == <<OpLF>>
 \* the messages of one use of auto(): cfg = [start, end, body : Seq([k, m])]
 MsgsOf(c) == {c.start, c.end} \cup {c.body[k].m : k \in {j \in 1..Len(c.body) : c.body[j].k = "set"}}
 \* a row shows exactly one frame: blank, one indicator value, blank, one of the messages  (trailing blanks aside)
-IsOneFrame(row, msgs) == \E v \in ValueSet, m \in msgs : RTrim(row) = RTrim(<<" ", v, " ">> \o m)
+\* (a not decorated output - mode "plain" - shows the documented format without indicator: blank, message)
+IsOneFrame(row, msgs, mode) ==
+  IF mode = "plain" THEN \E m \in msgs : RTrim(row) = RTrim(<<" ">> \o m)
+  ELSE \E v \in ValueSet, m \in msgs : RTrim(row) = RTrim(<<" ", v, " ">> \o m)
 \* no row of the terminal shows anything but nothing or one frame
-NoMixT(t, msgs) == \A k \in 1..Len(t.rows) : RTrim(t.rows[k]) = <<>> \/ IsOneFrame(t.rows[k], msgs)
+NoMixT(t, msgs, mode) == \A k \in 1..Len(t.rows) : RTrim(t.rows[k]) = <<>> \/ IsOneFrame(t.rows[k], msgs, mode)
 \* the last thing on the screen is a frame with the end message, and nothing has been drawn behind it: the row the
 \* cursor is left on (after the line end that closes the indicator's line) is blank and lies below that frame
-EndFrameT(t, end) == LET s == Screen(t) IN /\ s # <<>> /\ IsOneFrame(s[Len(s)], {end})
+EndFrameT(t, end, mode) == LET s == Screen(t) IN /\ s # <<>> /\ IsOneFrame(s[Len(s)], {end}, mode)
                                            /\ t.r > Len(s) /\ RTrim(t.rows[t.r]) = <<>>
 =============================================================================
